@@ -144,6 +144,10 @@ func iniValueFor(r *rand.Rand, o *OptNode, valid bool) string {
 		if chance(r, 0.2) && o.Kind != "map" {
 			return strconv.Quote(v)
 		}
+		if chance(r, 0.2) && o.Kind == "map" {
+			k, val := splitKV(v)
+			return k + ":" + strconv.Quote(val) // a quoted map value (it may hold a colon of its own)
+		}
 		return v
 	}
 	return invalidValue(r, o)
@@ -302,7 +306,11 @@ func genSessionRobust(r *rand.Rand, t *Tree, id int) *SessionScn {
 		text = string(b)
 	case 1: // a very long line
 		text, _ = genIniText(r, t, 1+r.Intn(3), false, true, true)
-		text = insertLine(text, "; "+strings.Repeat("x", 4000+r.Intn(9000)), r.Intn(4), "\n")
+		n := 4000 + r.Intn(9000)
+		if chance(r, 0.15) {
+			n = 66000 + r.Intn(3000) // longer than any fixed 64 KiB buffer
+		}
+		text = insertLine(text, "; "+strings.Repeat("x", n), r.Intn(4), "\n")
 		if chance(r, 0.5) {
 			text = insertLine(text, strings.Repeat(" ", 5000)+"; pad", r.Intn(4), "\n")
 		}
